@@ -178,9 +178,12 @@ def run_encoders(ck):
     ok_cases = [c for c in cases if not c.get("panic") and not c.get("skip")]
 
     mism, viol, unread, fdis = [], [], [], []
-    shard = 400
-    for k in range(0, len(ok_cases), shard):
-        m, v, r, fd, out = eval_cases(ck, "C15_enc_%d" % (k // shard), ok_cases[k:k + shard])
+    shard = 200
+    # the shards are independent coqc runs: evaluate them side by side (the number printers made a case ~2x dearer)
+    from concurrent.futures import ThreadPoolExecutor
+    with ThreadPoolExecutor(max_workers=6) as ex:
+        results = list(ex.map(lambda k: eval_cases(ck, "C15_enc_%d" % (k // shard), ok_cases[k:k + shard]), range(0, len(ok_cases), shard)))
+    for m, v, r, fd, out in results:
         if m is None:
             ck.obligation("encoder cases evaluated inside Coq", False, out[-1500:])
             return
